@@ -28,6 +28,7 @@ import (
 	"github.com/anishathalye/porcupine"
 	p9p "github.com/frobnitzem/go-p9p"
 
+	"verifharness/internal/mockfs"
 	"verifharness/sessfs"
 )
 
@@ -59,12 +60,13 @@ type lnode struct {
 	Removed bool
 	Version uint32
 	Mode    uint32
+	QExtra  p9p.QType
 }
 
 func (n *lnode) qid() p9p.Qid {
-	q := p9p.Qid{Path: n.ID, Version: n.Version}
+	q := p9p.Qid{Path: n.ID, Version: n.Version, Type: n.QExtra}
 	if n.Dir {
-		q.Type = p9p.QTDIR
+		q.Type |= p9p.QTDIR
 	}
 	return q
 }
@@ -126,7 +128,7 @@ func (s *lstate) signature() string {
 	sort.Ints(ids)
 	for _, id := range ids {
 		n := s.nodes[uint64(id)]
-		fmt.Fprintf(&b, "n%d=%q,%v,%d,%q,%v,%d,%o[", id, n.Name, n.Dir, n.Parent, n.Data, n.Removed, n.Version, n.Mode)
+		fmt.Fprintf(&b, "n%d=%q,%v,%d,%q,%v,%d,%o,%x[", id, n.Name, n.Dir, n.Parent, n.Data, n.Removed, n.Version, n.Mode, n.QExtra)
 		var ks []string
 		for k := range n.Kids {
 			ks = append(ks, k)
@@ -202,6 +204,8 @@ func linInit() *lstate {
 	add(5, 4, "y", false, "yy")
 	add(6, 1, "f", false, "file f data")
 	add(7, 1, "e", true, "")
+	s.nodes[2].QExtra = p9p.QTTMP
+	s.nodes[4].QExtra = p9p.QTAPPEND | p9p.QTEXCL
 	return s
 }
 
@@ -412,11 +416,15 @@ func linStep(s *lstate, op sessfs.Op, o lobs) (bool, *lstate) {
 		if _, exists := s.nodes[id]; exists || id == 0 {
 			return false, nil // the qid of a new file names a file that already exists
 		}
-		if (o.Qid.Type&p9p.QTDIR != 0) != isDir || o.Qid.Version != 0 {
+		wantType := mockfs.QExtraOf(op.Perm)
+		if isDir {
+			wantType |= p9p.QTDIR
+		}
+		if o.Qid.Type != wantType || o.Qid.Version != 0 {
 			return false, nil
 		}
 		n := s.clone()
-		nn := &lnode{ID: id, Name: op.Name, Dir: isDir, Parent: parent.ID, Mode: op.Perm & 0777}
+		nn := &lnode{ID: id, Name: op.Name, Dir: isDir, Parent: parent.ID, Mode: op.Perm & 0777, QExtra: mockfs.QExtraOf(op.Perm)}
 		if isDir {
 			nn.Kids = map[string]uint64{}
 		}
